@@ -1,6 +1,8 @@
 //! vacuum stream (C28): histories at the GraphEngine API (± compaction, index, vectors) →
 //! close → vacuum → reopen → dump → write → reopen → dump.
 //!   nodes <n> | edge <a> <b> | prop <n> <v> | vec <n> | compact | index | reopen | close -> ok | err | panic | closed
+//!   bulk <n> <m> -> ok | err | exists   build the database with the offline bulk loader (first op of a case)
+//!   ckclose  -> ok | err | closed       checkpoint-on-close, then close (what Db::close does)
 //!   reach    -> ok | missing | err
 //!               every page a reader dereferences (owner walk from the roots) is in vacuum's mark set
 //!   vacuum   -> ok | err          nervusdb_storage::vacuum::vacuum_in_place on the closed database
@@ -15,17 +17,26 @@ use std::io::Write;
 use std::panic::{AssertUnwindSafe, catch_unwind};
 
 pub fn def() -> StreamDef {
-    StreamDef { name: "vacuum", generate, new_state: || Box::new(S { e: Eng::new() }), child: no_child }
+    StreamDef { name: "vacuum", generate, new_state: || Box::new(S { e: None }), child: no_child }
 }
 
 struct S {
-    e: Eng,
+    e: Option<Eng>,
 }
 
 impl State for S {
     fn step(&mut self, ws: &[&str]) -> String {
-        let e = &mut self.e;
+        if self.e.is_none() {
+            // the bulk loader needs a directory without a database; every other first op gets a fresh engine
+            self.e = Some(if matches!(ws, ["bulk", ..]) { Eng::empty() } else { Eng::new() });
+        }
+        let e = self.e.as_mut().unwrap();
         match ws {
+            ["bulk", n, m] => match (n.parse::<u32>(), m.parse::<u32>()) {
+                (Ok(n), Ok(m)) if n > 0 => e.bulk(n, m),
+                _ => "bad-op".into(),
+            },
+            ["ckclose"] => e.checkpoint_close(),
             ["nodes", n] => n.parse::<u32>().map(|n| e.create_nodes(n)).unwrap_or("bad-op".into()),
             ["edge", a, b] => match (a.parse::<u32>(), b.parse::<u32>()) {
                 (Ok(a), Ok(b)) => e.create_edge(a, b),
@@ -475,23 +486,40 @@ fn generate(rng: &mut Rng, n: usize, _tier: &str, out: &mut dyn Write) {
             continue;
         }
         // which features the history uses
-        let compactions = match case_no % 4 {
-            0 => 0,
-            1 => 1,
+        let bulk = case_no % 2 == 0;
+        let compactions = match case_no % 8 {
+            0 | 1 | 4 => 0,
+            5 | 2 => 1,
             _ => 1 + rng.below(3),
         };
         let with_index = rng.chance(1, 2);
         let with_vec = rng.chance(1, 2);
         let with_props = rng.chance(2, 3);
-        writeln!(out, "#case {} c{}{}{}{}", case_no, compactions, if with_index { "i" } else { "" },
-            if with_vec { "v" } else { "" }, if with_props { "p" } else { "" }).unwrap();
+        writeln!(out, "#case {} {}c{}{}{}{}", case_no, if bulk { "bulk-" } else { "" }, compactions,
+            if with_index { "i" } else { "" }, if with_vec { "v" } else { "" }, if with_props { "p" } else { "" }).unwrap();
         // all nodes first (the node table must not grow into a foreign page: that is C18's finding)
         let total = 3 + rng.below(40) as u32;
-        emit!("nodes {}", total);
+        let mut edge_no = 0u32;
+        if bulk {
+            // offline bulk loader: the live manifest has epoch 0 WITH segments until the first compaction
+            let m = 1 + rng.below(12.min((total * total) as u64)) as u32;
+            emit!("bulk {} {}", total, m);
+            edge_no = m;
+        } else {
+            emit!("nodes {}", total);
+        }
+        // closed and reopened many times, with and without checkpoint-on-close (which rewrites the WAL)
+        let cycles = |rng: &mut Rng, out: &mut dyn Write, lines: &mut usize| {
+            for _ in 0..rng.below(4) {
+                writeln!(out, "{}", if rng.chance(1, 2) { "ckclose" } else { "close" }).unwrap();
+                writeln!(out, "reopen").unwrap();
+                *lines += 2;
+            }
+        };
+        cycles(rng, out, &mut lines);
         if with_index {
             emit!("index");
         }
-        let mut edge_no = 0u32;
         // distinct edges (k < total²): every compaction must see a new one — a segment without edges
         // panics on incoming scans (C05's finding), which is not what this stream is about
         let mut new_edge = |_rng: &mut Rng| -> Option<(u32, u32)> {
@@ -503,7 +531,7 @@ fn generate(rng: &mut Rng, n: usize, _tier: &str, out: &mut dyn Write) {
             edge_no += 1;
             Some((a, b))
         };
-        let rounds = compactions.max(1);
+        let rounds = if bulk && compactions == 0 && rng.chance(1, 2) { 0 } else { compactions.max(1) };
         for r in 0..rounds {
             let k = 1 + rng.below(6);
             let mut fresh = 0;
@@ -524,11 +552,14 @@ fn generate(rng: &mut Rng, n: usize, _tier: &str, out: &mut dyn Write) {
             if r < compactions && fresh > 0 {
                 emit!("compact");
             }
+            if rng.chance(1, 3) {
+                cycles(rng, out, &mut lines);
+            }
         }
         emit!("dump");
         emit!("reopen");
         emit!("reach");
-        emit!("close");
+        emit!("{}", if rng.chance(1, 2) { "ckclose" } else { "close" });
         emit!("vacuum");
         emit!("reopen");
         emit!("dump");
